@@ -323,7 +323,7 @@ func impliesAtom(e ast.Expr, atom string, want bool) bool {
 // R02.2
 func (c *Ctx) r022(pk *packages.Package) {
 	const rule = "R02.2"
-	c.R.Rule(rule, "every assignment to renamer.rename is either the restore of the saved local or an expression E with E ⇒ ¬X.Body.Scope.HasWith ∧ ¬o.KeepVarNames (truth table over E's atoms) that dominates renameScope(X.Body.Scope) of the same X; the rename argument of newRenamer implies ¬KeepVarNames")
+	c.R.Rule(rule, "every assignment to renamer.rename is either the restore of a saved local — whose save dominates every other store to the switch in the function, so that the caller's value is what comes back — or an expression E with E ⇒ ¬X.Body.Scope.HasWith ∧ ¬o.KeepVarNames (truth table over E's atoms) that dominates renameScope(X.Body.Scope) of the same X; the rename argument of newRenamer implies ¬KeepVarNames")
 	info := pk.TypesInfo
 	sets := 0
 	for _, fd := range load.FuncDecls(pk) {
@@ -338,6 +338,35 @@ func (c *Ctx) r022(pk *packages.Package) {
 				// restore of a saved local (R01.3 checks pairing): the local must be defined from the same field
 				if def := c.singleDef(pk, id); def != nil && isField(info, def, jsRenT, "rename") {
 					c.R.Exists(rule, "js."+fname+"/rename = "+id.Name, c.pos(n.Stmt), "restore of the saved value")
+					// the value that is restored is the one of the caller: the save dominates every other store to the
+					// switch in this function, i.e. it reads the field before the function has set it for its own scope
+					obj := info.Uses[id]
+					var save *flow.Node
+					for _, x := range g.Nodes {
+						if x.Kind != flow.KStmt {
+							continue
+						}
+						if as, isAs := x.Stmt.(*ast.AssignStmt); isAs {
+							for _, l := range as.Lhs {
+								if lid, isId := l.(*ast.Ident); isId && obj != nil && info.Defs[lid] == obj {
+									save = x
+								}
+							}
+						}
+					}
+					var late []string
+					for _, x := range g.Nodes {
+						if x == n || x == save {
+							continue
+						}
+						if _, isStore := assignsTo(x, func(l ast.Expr) bool { return isField(info, l, jsRenT, "rename") }); isStore {
+							if save == nil || !g.Dominates(save, x) {
+								late = append(late, c.pos(x.Stmt))
+							}
+						}
+					}
+					c.R.Check(save != nil && len(late) == 0, rule, "js."+fname+"/"+id.Name+" is saved before the switch is set", c.pos(n.Stmt), "the save dominates every other store to the switch",
+						"the local that is restored on leaving is read from the switch after this function has already set it for its own scope ("+strings.Join(late, ", ")+"): the enclosing function gets the inner function's value back — after a method without `with` inside a function with `with`, the block scopes that follow are renamed although the with-object's properties may shadow them")
 					continue
 				}
 			}
